@@ -89,4 +89,9 @@ PROPS = {
         'theorems': ['accepted_resolved', 'merged_callback_was_checked', 'url_check_meaning', 'merge_fieldwise', 'scope_defaulting', 'rejected_is_error', 'untyped_filter_rejected', 'scope_constant_matches_source'],
         'trusted': ['protojson decoding (the model starts from the decoded document); net/url.Parse, redis.ParseURL and net.ParseIP are oracles', 'only the fields that take part in loading are modelled (TLS/CA fields, skip_verify, fetch intervals are carried by the real code, not by the model)', 'hook: harness/export/internal/export.go (build tag verif) constructs LocalConfigFile with a path'],
     },
+    'C20': {
+        'theorems': ['trust_decision', 'skip_only_when_requested_and_no_ca', 'identical_settings_share', 'superseded_watcher_stops', 'every_user_of_a_file_keeps_its_watcher', 'rotation_reaches_entry', 'rotation_leaves_others', 'unparsable_rotation_ignored', 'pool_and_watchers_locked'],
+        'level_text': 'PARTIAL. Lean 4 theorems about the trust decision, the pool and the watcher state machine of a hand-written model, tied to the code by real TLS handshakes against servers chaining to the old/new/unconfigured CA; crypto/tls, x509 chain building and timer scheduling are trusted.',
+        'trusted': ['crypto/tls and crypto/x509 (handshake, chain building, SystemCertPool)', 'the settings hash (fnv64a) is treated as injective on the settings in play', 'timing: a rotation is judged after 7 refresh intervals', 'the in-place update of RootCAs on a live tls.Config is a data race (C16 known finding)'],
+    },
 }
